@@ -36,7 +36,7 @@ ASSUMPTIONS = ['no NaN; Date/Ref/list columns are not used as sort or group colu
                'order_by="id" alone is generated as a rare labelled class (order:id-only) for PREVIOUS/NEXT/RANK; it '
                'raises ValueError and is listed in known_findings.d/C14.json']
 BUDGET = {'quick': dict(examples=2400, shards=16, max_seconds=50),
-          'thorough': dict(examples=40000, shards=16, max_seconds=560)}
+          'thorough': dict(examples=39000, shards=16, max_seconds=1800)}
 SHRINK_BUDGET = {'quick': 120, 'thorough': 400}
 
 SRC_DATA = [('G', 'Text'), ('H', 'Int'), ('A', 'Numeric'), ('B', 'Text'), ('X', 'Numeric')]
